@@ -10,6 +10,14 @@ for _p in sorted(glob.glob(os.path.join(ROOT, 'tools', 'claims.d', '*.py'))):
     _m = importlib.util.module_from_spec(_s); _s.loader.exec_module(_m)
     M.CLAIMS.update(getattr(_m, 'CLAIMS', {}))
     M.HOOK_COMMITS += getattr(_m, 'HOOK_COMMITS', [])
+    for _k, _v in getattr(_m, 'ADD', {}).items():
+        # growth addenda: appended to the claim of an already claimed property
+        if _k in M.CLAIMS:
+            M.CLAIMS[_k] = dict(M.CLAIMS[_k])
+            M.CLAIMS[_k]['text'] = M.CLAIMS[_k]['text'].rstrip() + ' ' + _v.get('text', '')
+            M.CLAIMS[_k]['note'] = (_v.get('note', '') + ' ' + M.CLAIMS[_k]['note']).strip()
+            if _v.get('technique'):
+                M.CLAIMS[_k]['technique'] = M.CLAIMS[_k]['technique'] + ' + ' + _v['technique']
 
 ids = [json.loads(l)['id'] for l in open(os.path.join(ROOT, 'properties.jsonl'))]
 checks, na = [], []
